@@ -231,7 +231,12 @@ def run_cfg(lay, cfg, idx, seed, sh):
             args = [rawl, lay.platform, lay.plan]
     skip = lambda rel: rel in (b"marker", b"dump.json", b"script.json")
     pre = vp.snapshot(lay.root, skip)
-    status, marker, stderr = lay.run(cfg["name"], args, env, script)
+    # (a third of the runs: the buildpack code leaves an unterminated line in its stdout buffer and stdout is /dev/full - statuses and
+    # outputs are what they are with a healthy stdout)
+    full = zlib.crc32(repr(sorted((k, repr(v)) for k, v in cfg.items())).encode() + b"stdout") % 3 == 0
+    if full:
+        script = dict(script, print="progress: 42%")
+    status, marker, stderr = lay.run(cfg["name"], args, env, script, stdout_full=full)
     post = vp.snapshot(lay.root, skip)
     sh.evaluations += 1
     exp = expectation(cfg)
@@ -435,6 +440,53 @@ def inproc_shard(arg):
     return sh.dict()
 
 
+def dotdot_shard(arg):
+    """path arguments that reach their file through a symbolic link followed by '..' (<root>/hop/../plan.toml with hop -> <root>/platform/env):
+    the file system's reading of such a path is the one that counts - the outputs land where the kernel says the path leads, the file that the
+    textually simplified path names is not touched"""
+    idxs, seed, work = arg
+    sh = vp.Shard()
+    for idx in idxs:
+        lay = phase.Layout(os.path.join(work, "dotdot-%d-%d" % (os.getpid(), idx)), exe="vpbpm" if idx % 2 else "vpbp")
+        try:
+            lay.create()
+            with open(os.path.join(lay.bp, "buildpack.toml"), "w") as f:
+                f.write(phase.BP_TOML_OK)
+            os.makedirs(os.path.join(lay.platform, "env"))
+            os.symlink(os.path.join(lay.platform, "env"), os.path.join(lay.root, "hop"))        # two levels down: hop/.. is <root>/platform
+            name = ["detect", "build"][idx % 2]
+            sh.evaluations += 1
+            sh.count("route_dotdot")
+            case = {"kind": "dotdot", "idx": idx, "phase": name}
+            if name == "detect":
+                real, decoy = os.path.join(lay.platform, "plan.toml"), os.path.join(lay.root, "plan.toml")
+                for p_ in (real, decoy):
+                    with open(p_, "w") as f:
+                        f.write("")
+                st, marker, err = lay.run("detect", [lay.platform, os.path.join(lay.root, "hop", "..", "plan.toml")], lay.env(), {"marker": lay.marker, "detect": {"result": "plan", "plan": [["provides", "x"]]}})
+                if st != 0 or open(decoy).read() != "" or "provides" not in open(real).read():
+                    sh.violation("dotdot:detect", "detect with the plan path <root>/hop/../plan.toml (hop -> <root>/platform/env): exit %d, the file the path leads to holds %r, the file <root>/plan.toml holds %r"
+                                 % (st, open(real).read()[:80], open(decoy).read()[:80]), case)
+                    continue
+            else:
+                # the layers directory <root>/hop/../L is <root>/platform/L; <root>/L is something else
+                real, decoy = os.path.join(lay.platform, "L"), os.path.join(lay.root, "L")
+                os.makedirs(real)
+                os.makedirs(decoy)
+                with open(lay.plan, "w") as f:
+                    f.write('[[entries]]\nname = "x"\n')
+                script = {"marker": lay.marker, "build": {"result": "ok", "launch": launch_spec(vp.rng(seed, "c05-dotdot", idx)), "store": None, "build_sboms": ["cdx"], "launch_sboms": [], "order": ["launch", "store", "bsbom", "lsbom"]}}
+                st, marker, err = lay.run("build", [os.path.join(lay.root, "hop", "..", "L"), lay.platform, lay.plan], lay.env(), script)
+                if st != 0 or os.listdir(decoy) or sorted(os.listdir(real)) != ["build.sbom.cdx.json", "launch.toml"]:
+                    sh.violation("dotdot:build", "build with the layers directory <root>/hop/../L (hop -> <root>/platform/env): exit %d, the directory the path leads to holds %r, <root>/L holds %r (%s)"
+                                 % (st, sorted(os.listdir(real)), sorted(os.listdir(decoy)), err[-200:]), case)
+                    continue
+            sh.nontrivial.add(("dotdot", name, lay.exe))
+        finally:
+            vp.rmtree(lay.root)
+    return sh.dict()
+
+
 def shard_run(arg):
     items, seed, work = arg
     sh = vp.Shard()
@@ -483,7 +535,9 @@ def run(tier, seed, work):
     cfgs += [dict(c, unwritable_kind="dir") for c in cfgs if c.get("unwritable") and c["unwritable"] != "store.toml"]
     for d in vp.pmap(inproc_shard, [(sq, seed, work) for sq in vp.split(range(160 if tier == "quick" else 3000), vp.NCPU)]):
         res.merge(d)
-    res.required = ["route_inproc"]
+    for d in vp.pmap(dotdot_shard, [(sq, seed, work) for sq in vp.split(range(16 if tier == "quick" else 200), 4)]):
+        res.merge(d)
+    res.required = ["route_inproc", "route_dotdot"]
     items = list(enumerate(cfgs))
     for d in vp.pmap(shard_run, [(s, seed, work) for s in vp.split(items, vp.NCPU * 2)]):
         res.merge(d)
